@@ -79,6 +79,12 @@ for fn_ in ("mul_redc", "square_redc"):
         "C11, not decided here) and the modulus is a canonical Uint, so the top limb is <= MASK. Reviewed, not "
         "machine-checked: for aligned widths the assert is vacuous (MASK == u64::MAX, discharged by intervals)")
 
+row("crate::support::postgres::<impl postgres_types::ToSql for %s>::to_sql" % U, "foreign", OUNWRAP,
+    "BIT / VARBIT encoder: `self.as_le_bytes().iter().rev().next().unwrap()` on the `BITS != 0` branch, where the byte "
+    "view is BYTES >= 1 long, so the first item exists. Reviewed (iterator lengths are not modelled); the entry is in "
+    "C16's scope for its overflow-checked arithmetic (MONEY's checked_mul, seed C16f). The `BITS == 0` branch is "
+    "configuration-constant: in (0,0) the site is pruned as unreachable")
+
 # ---- bits.rs: indices that are in range by a relation the interval domain cannot express
 row("crate::bits::<impl %s>::most_significant_bits" % U, "assert:BoundsCheck", "BoundsCheck[first_set_limb]",
     "first_set_limb comes from rposition() over the LIMBS-long limb array, hence < LIMBS (core post-condition)")
